@@ -329,6 +329,23 @@ fn build_fn_edits(
     }
 }
 
+/// `@private`: the visibility keyword is dropped from the extracted fn (single-file extraction:
+/// visibility has no effect on behaviour; Verus forbids private spec functions in the contract of
+/// a pub fn)
+fn strip_vis(e: &mut Emitted, path: &str) {
+    for v in ["pub(crate) fn ", "pub fn "] {
+        if let Some(p) = e.text.find(v) {
+            // only a visibility in front of the signature, not somewhere in the body
+            let before_sig = e.text.find("fn ").map_or(false, |f| f == p + v.len() - 3);
+            if before_sig {
+                e.text.replace_range(p..p + v.len(), "fn ");
+                e.dropped.push(format!("visibility of {path}"));
+                return;
+            }
+        }
+    }
+}
+
 fn emit_item(file: &SrcFile, it: &ItemSpec) -> Emitted {
     let src = &file.text;
     match locate(file, it) {
@@ -338,7 +355,11 @@ fn emit_item(file: &SrcFile, it: &ItemSpec) -> Emitted {
                 syn::Visibility::Inherited => f.sig.span().byte_range().start,
                 v => v.span().byte_range().start,
             };
-            build_fn_edits(file, it, &f.attrs, &f.sig, &f.block, r.start, r.end, vis_start)
+            let mut e = build_fn_edits(file, it, &f.attrs, &f.sig, &f.block, r.start, r.end, vis_start);
+            if it.private {
+                strip_vis(&mut e, &it.path);
+            }
+            e
         }
         Found::Method { imp, m } => {
             let r = m.span().byte_range();
@@ -347,6 +368,9 @@ fn emit_item(file: &SrcFile, it: &ItemSpec) -> Emitted {
                 v => v.span().byte_range().start,
             };
             let mut e = build_fn_edits(file, it, &m.attrs, &m.sig, &m.block, r.start, r.end, vis_start);
+            if it.private {
+                strip_vis(&mut e, &it.path);
+            }
             let hdr_start = imp.impl_token.span().byte_range().start;
             let hdr_end = imp.brace_token.span.open().byte_range().end;
             let hdr = &src[hdr_start..hdr_end];
